@@ -172,6 +172,8 @@ class Gen:
             return self.node(['Bin', self.rng.choice(['And', 'Or'])], [self.boolean(d - 1), self.boolean(d - 1)], 'bool')
         if r < 0.85 and self.ok('Belongs'):
             a = self.leaf_real()
+            if a['h'][0] == 'Num' and abs(a['h'][1]) >= 2 ** 24:
+                a = self.node(['Num'] + dy(self.rng))     # binary32-exact constants only around BelongsTo (known finding F2)
             st = [dy(self.rng) for _ in range(self.rng.randint(1, 4))]
             if a['h'][0] == 'Num' and self.rng.random() < 0.5:
                 st.append(a['h'][1:])
